@@ -30,6 +30,8 @@ type gor struct {
 	killed  bool
 	started bool
 	vc      map[int]int // vector clock (happens-before tracking)
+	pid        int64 // model process id (os.Getpid) of this goroutine; inherited by children
+	crashArmed int   // >0 while inside sym.RunToCrash on this goroutine
 }
 
 type timer struct {
@@ -76,6 +78,7 @@ func (s *scheduler) spawn(i *interpreter, name string, fn func(root *frame)) *go
 	}
 	g.vc[g.id] = 1
 	s.cur.vc[s.cur.id]++
+	g.pid = s.cur.pid
 	s.gs = append(s.gs, g)
 	go func() {
 		defer close(g.exited)
@@ -322,6 +325,22 @@ func (s *scheduler) yieldPoint(g *gor, what string) {
 
 // killAll terminates every goroutine other than main at the end of a path.
 func (s *scheduler) killAll() { s.killFrom(1) }
+
+// killPid terminates the goroutines of model process pid that were started at index >= from (except keep).
+func (s *scheduler) killPid(pid int64, keep *gor, from int) {
+	for i, g := range s.gs {
+		if i < from || g == keep || g.pid != pid || g.state == gDone || i == 0 {
+			continue
+		}
+		g.killed = true
+		select {
+		case g.wake <- struct{}{}:
+		default:
+		}
+		<-g.exited
+		g.state = gDone
+	}
+}
 
 // killFrom terminates the goroutines with index >= from (all goroutines of a crashed process).
 func (s *scheduler) killFrom(from int) {
